@@ -207,7 +207,7 @@ func (b *assignmentBuilder) structFieldAndStructGettersAndFields(
 			nested = true
 			nestStruct := gmodel.NestStruct{}
 			if util.IsPtr(lhs.ExprType()) {
-				nestStruct.InitExpr = fmt.Sprintf("%v = %v{}", lhs.AssignExpr(), b.imports.TypeName(lhs.ExprType()))
+				nestStruct.InitExpr = fmt.Sprintf("%v = %v{}", lhs.AssignExpr(), b.typeName(lhs.ExprType()))
 			}
 			if rhs.ObjNullable() {
 				nestStruct.NullCheckExpr = rhs.NullCheckExpr()
@@ -475,6 +475,23 @@ func (b *assignmentBuilder) canName(t types.Type) bool {
 	return true
 }
 
+// typeName spells out the given type for the generated code. A type of a package
+// that the setup file does not import goes by the name of its package; adding the
+// import is left to goimports.
+func (b *assignmentBuilder) typeName(t types.Type) string {
+	switch typ := t.(type) {
+	case *types.Pointer:
+		return "*" + b.typeName(typ.Elem())
+	case *types.Named:
+		if pkg := typ.Obj().Pkg(); b.isExternalPkg(pkg) {
+			if _, ok := b.imports.LookupName(pkg.Path()); !ok {
+				return pkg.Name() + "." + typ.Obj().Name()
+			}
+		}
+	}
+	return b.imports.TypeName(t)
+}
+
 // isExternalPkg returns true if the given package is not the current package.
 func (b *assignmentBuilder) isExternalPkg(pkg *types.Package) bool {
 	if pkg == nil {
@@ -651,7 +668,7 @@ func (b *assignmentBuilder) sliceToSlice(lhs, rhs bmodel.Node) (a gmodel.Assignm
 			a = gmodel.SliceLoopAssignment{
 				LHS: lhs.AssignExpr(),
 				RHS: rhs.AssignExpr(),
-				Typ: "[]" + b.imports.TypeName(lhsElem),
+				Typ: "[]" + b.typeName(lhsElem),
 			}
 		}
 		return
@@ -661,8 +678,8 @@ func (b *assignmentBuilder) sliceToSlice(lhs, rhs bmodel.Node) (a gmodel.Assignm
 		a = gmodel.SliceTypecastAssignment{
 			LHS:  lhs.AssignExpr(),
 			RHS:  rhs.AssignExpr(),
-			Typ:  "[]" + b.imports.TypeName(lhsElem),
-			Cast: b.imports.TypeName(lhsElem),
+			Typ:  "[]" + b.typeName(lhsElem),
+			Cast: b.typeName(lhsElem),
 		}
 		return
 	}
